@@ -20,7 +20,7 @@ rm -f tests/seeded_demo.rs
 cd /verif
 for C in $CHECKS; do
   echo "== check $C against mutated tree" >> $LOG
-  VERIF_REPO=$WT python3 tools/check.py $C > $DST/check-$C.out 2>$DST/check-$C.err; echo "check_${C}_exit=$?" >> $LOG
+  VERIF_OUT=$DST VERIF_REPO=$WT python3 tools/check.py $C > $DST/check-$C.out 2>$DST/check-$C.err; echo "check_${C}_exit=$?" >> $LOG
   grep -h "VIOLATION\|KNOWN-FINDING\|quick:" $DST/check-$C.out | cut -c1-300 >> $LOG
 done
 cd $WT && git checkout -q -- . && git clean -qfd tests/
